@@ -149,7 +149,7 @@ def obligations(tier, seed):
     if not q:
         obs.append(ob_iterfit(5, 3, 'squares', 1, 1, 2, _generators(5)))
         obs.append(ob_iterfit(5, 2, 'neg_zero', 1, 1, 2, _generators(5)))
-        obs.append(ob_iterfit(6, 2, 'ones', 1, 1, 1, _generators(6)))
+        obs.append(ob_iterfit(5, 2, 'ones', 2, 1, 2, _generators(5)[:1]))      # (n=6 with rejection: over the 1700 s budget)
         obs.append(ob_iterfit(6, 4, 'squares', 2, 2, 1, _generators(6)))
         obs.append(ob_iterfit(5, 2, 'zero1', 5, 1, 2, _generators(5)))
     return obs
